@@ -1142,6 +1142,9 @@ func (it *Interp) global(e *env, n ast.Node, v *types.Var) (Value, error) {
 			return val, nil
 		}
 	}
+	if v.Pkg() != nil && v.Pkg().Path() == "go/types" && v.Name() == "Universe" {
+		return UniverseScope, nil
+	}
 	// evaluate the initialiser
 	for _, p := range it.Pkgs {
 		if p.Types != v.Pkg() {
